@@ -588,6 +588,21 @@ def gen_c04(tier, seed):
         regs = rnd_regs(r, psw_of(r.choice(allflags())))
         regs[9] = DATA + 0x80
         g.add(setup_ops(regs, [], code + [0x70] * 2) + ['dc', 'st'], 'pc-advance')
+    # ... for EVERY opcode of the table (no-operand opcodes such as NOP2 / NOP3 included): one step, whole state compared
+    for o in sorted(ARCH_SIG):
+        for _ in range(2 if tier == 'quick' else 12):
+            s = ARCH_SIG[o]
+            code = [o] if o < 0x100 else [o >> 8, o & 0xff]
+            for k in s:
+                if k in 'BHW':
+                    code += fill({'B': 1, 'H': 2, 'W': 4}[k])
+                else:
+                    code += r.choice([reg(r.randrange(9)), reg(r.randrange(9)), absa(DATA + 4 * r.randrange(8)), lit(r.randrange(1, 60))])
+            if s and s[-1] == 'd' and (code[-1] < 0x40 or code[-1] >= 0xf0):
+                code[-1:] = reg(3)
+            regs = rnd_regs(r, psw_of(r.choice(allflags())))
+            regs[9] = DATA + 0x80
+            g.add(setup_ops(regs, [], code + [0x70] * 4) + ['dc', 'st'], 'pc-advance-every-opcode')
     return g.result('Decode-only runs: all 256 first bytes, all 256 second bytes after 0x30, for every operand signature (every '
                     'opcode in the thorough tier) and operand position all 256 descriptor bytes alone and after each of the 16 '
                     '0xE? prefixes followed by random constants, four code alignments, longest encodings, random strings, code '
@@ -846,7 +861,7 @@ def gen_c13(tier, seed):
                 psw = psw_of(fl, ipl=r.choice([0, 15, 15]), extra=r.choice([0, 0x800, 0x1800, 0x1000]))
                 regs = rnd_regs(r, psw)
                 regs.update(regsx)
-                sp = r.choice([STK, STK + 0x100, 0x7ffff8 - 0x100, 0x700800])
+                sp = r.choice([STK, STK + 0x100, 0x7ffff8 - 0x100, 0x700800]) + r.choice([0, 4])     # word aligned, 8-byte aligned or not
                 regs[12] = sp
                 hcode = r.choice([[], ins(OP['CMPW'], immw(1), immw(0)), ins(OP['MOVW'], immw(0xffffffff), reg(0)) + ins(OP['MOVW'], reg(0), reg(0))])
                 if hcode and OP['MOVW'] == hcode[0]:
@@ -873,6 +888,15 @@ def gen_c13(tier, seed):
                 mem = exc_setup(r, []) + [(DATA, [r.randrange(256) for _ in range(0x140)])]
                 ops = setup_ops(regs, mem, ins(OP[name], *(srcs + [do])) + [0x70] * 4) + ['k:3e8', 'sx', 'gr', 'rw:%x' % sp, 'rw:%x' % (sp + 4), 'sx', 'gr', 'X:0']
                 g.add(ops, 'fault-div-overflow')
+    # a return whose pop faults: the stack pointer sits at the bottom of RAM, the popped word would come from the hole below
+    for code in ([0x78], [0x7c], [0x6c], [0x4c], [0x44], [0x40], [0x5c], [0x54], ins(OP['POPW'], reg(1)), [0x08]):
+        for fl in allflags():
+            regs = rnd_regs(r, psw_of(fl, ipl=15))
+            regs[12] = 0x700000
+            regs[9] = 0x700000
+            mem = exc_setup(r, []) + [(DATA, [r.randrange(256) for _ in range(0x140)])]
+            ops = setup_ops(regs, mem, code + [0x70] * 4) + ['k:3e8', 'sx', 'gr', 'rw:700000', 'rw:700004', 'sx', 'gr', 'X:9']
+            g.add(ops, 'fault-in-pop')
     return g.result('Every data-processing / move / stack instruction class (B/H/W forms) with each operand in turn pointing at unmapped space '
                     '(holes after every device, above RAM, top of the address space) or, for destinations, ROM, through absolute, register-deferred '
                     'and displacement modes; gate tables and a handler (optionally disturbing the flags) ending in RETG; stepped with Cpu::step '
@@ -951,7 +975,10 @@ def gen_c07(tier, seed):
                 for _ in range(n):
                     fl = r.choice(allflags())
                     cm = r.choice([0, 0, 0, 1, 3])
-                    psw = psw_of(fl, ipl=ipl, extra=(cm << 11) | (cm << 9) | r.choice([0, 0, 0x100]))   # R may be left set by an earlier R handler
+                    # R may be left set by an earlier R handler; the PSW bits around the priority field (trace enable at 17,
+                    # the cache / overflow-enable bits 22-25, exception type / ISC bits 0-6) must not influence delivery
+                    other = r.choice([0, 0, 1 << 17, (1 << 17) | (1 << 25), (r.randrange(1 << 26) & 0x3c2007b)])
+                    psw = psw_of(fl, ipl=ipl, extra=(cm << 11) | (cm << 9) | r.choice([0, 0, 0x100]) | other)
                     regs = rnd_regs(r, psw)
                     regs[13] = OLDPCB
                     regs[14] = ISTK + 4 * r.randrange(4)
@@ -967,6 +994,35 @@ def gen_c07(tier, seed):
                     ops = setup_ops(regs, mem, main + [0x70] * 6) + ['k:3e8'] + ev + ['gi', 'gr', 'st', 'gr', 'rw:%x' % OLDPCB, 'rw:%x' % (OLDPCB + 4),
                                                                               'rw:%x' % (OLDPCB + 8), 'rw:%x' % regs[14], 'st', 'gr', 'X:0']
                     g.add(ops, 'irq-ipl%d' % ipl)
+    # handler control blocks with the R flag and a block-move list of 0-3 entries (count, destination, words ..., 0)
+    for ipl in (0, 5, 13, 14):
+        for nent in (0, 1, 2, 3):
+            for flags in (0x100, 0x180):
+                for _ in range(2 * n):
+                    psw = psw_of(r.choice(allflags()), ipl=ipl, extra=r.choice([0, 0x100]))
+                    regs = rnd_regs(r, psw)
+                    regs[13] = OLDPCB
+                    regs[14] = ISTK + 4 * r.randrange(4)
+                    regs[12] = STK
+                    hpsw = (15 << 13) | flags
+                    lst = []
+                    dests = []
+                    for e in range(nent):
+                        cnt = r.randrange(1, 5)
+                        dst = DATA + 0x100 + 0x40 * e
+                        dests.append((dst, cnt))
+                        lst += be(cnt, 4) + be(dst, 4)
+                        for _w in range(cnt):
+                            lst += be(r.randrange(1 << 32), 4)
+                    lst += be(0, 4)
+                    pcb = be(hpsw, 4) + be(HCODE, 4) + be(0x760000, 4) + [0] * 52 + lst + [0] * 16
+                    mem = [(0x8c, be(HPCB, 4) * 64), (HPCB, pcb), (HCODE, [0x30, 0xc8, 0x70, 0x70]),
+                           (OLDPCB, [r.randrange(256) for _ in range(0x40)] + [0] * 0x20), (ISTK - 8, [r.randrange(256) for _ in range(0x30)])]
+                    ops = setup_ops(regs, mem, [0x70] * 8) + ['k:3e8', 'md:1', 'gi', 'gr', 'st', 'gr']
+                    for dst, cnt in dests:
+                        ops += ['rw:%x' % (dst + 4 * w) for w in range(cnt)]
+                    ops += ['st', 'gr', 'X:2']
+                    g.add(ops, 'irq-block-move-%d' % nent)
     # privileged instructions outside kernel level; CALLPS / RETPS pairs in kernel level
     for opc in (0x30ac, 0x30c8, 0x300d, 0x3013):
         for cm in range(4):
@@ -1008,6 +1064,8 @@ def mon_c07(case, obs):
             regs[int(f[1], 16)] = int(f[2], 16)
     grs = [i for i, t in enumerate(toks) if t == 'gr']
     parse = lambda o: [int(x, 16) for x in o[2:].split(',')]
+    if toks[-1] == 'X:2':
+        return None          # block-move lists: judged by the comparison with the model
     if toks[-1] == 'X:1':
         # privileged instruction: refused outside kernel level with no state change
         opc_tok = [t for t in toks if t.startswith('ld:%x:' % PC0)][0]
@@ -1079,6 +1137,13 @@ def gen_c18(tier, seed):
                 regs = rnd_regs(r, psw_of(r.choice(allflags())))
                 regs.update(s[2]); regs.update(d[2])
                 pair('same', ins(OP[base + sfx + '2'], s[1], d[1]), ins(OP[base + sfx + '3'], s[1], d[1], d[1]), regs, s[3] + d[3])
+                # unusual destinations: the PSW itself (the stored result and the condition codes land in the same register)
+                # and an unwritable address (the write faults: neither form may have touched the condition codes)
+                if _ < 2:
+                    regs3 = rnd_regs(r, psw_of(r.choice(allflags())))
+                    regs3.update(s[2])
+                    for dd in (reg(11), absa(0x1000 + 4 * r.randrange(64)), absa(0x300000)):
+                        pair('same', ins(OP[base + sfx + '2'], s[1], dd), ins(OP[base + sfx + '3'], s[1], dd, dd), regs3, s[3])
                 # register operands vs memory operands holding the same values (result at operand size + flags)
                 hi = 0 if sz == 4 else (r.randrange(1 << 32) & ~((1 << (8 * sz)) - 1))
                 regs2 = rnd_regs(r, psw_of(r.choice(allflags())))
